@@ -235,20 +235,88 @@ def scan_routine_frames(chk):
 
 
 def strload_copy_obligation(chk, src):
-    """F for the text decoder: the public strload returns copy.deepcopy(loaded) for every container class
-    the parser can produce, and the cached helper is only called from there."""
+    """F for the text decoder, on the real body of serdes.strload (symbolic execution, the memoised helper and copy.deepcopy
+    uninterpreted): on every returning path the result is a deep copy of what the cache holds, unless the cached object's
+    class is none of the container classes the parser can produce (list / dict / set / tuple) - only an immutable scalar or
+    the caller's own object is ever handed out as is."""
+    import copy as _copy
+    from props import c14
+    from props import uf_world as uw
+    from pyvc.core import SV, Stub, to_val, cls_of, cls_const, class_axioms
+    I = uw.make_interp(raising=False)
+    c14.install_models(I)
+    for k in ("decode", "load"):
+        I.stubs.pop(f"typelib.serdes.{k}", None)
+    cached = uw.uf("the_cache_entry_for", 1)
+    deep = uw.uf("deepcopy", 1)
+    memo = {"calls": []}
+
+    def memo_call(I, path, f, args, kwargs):
+        memo["calls"].append(f.qualname)
+    I.hooks["memo_call"] = memo_call
+    # the memoised helper: whatever object the cache holds for this key
     mod, chain, node = src.find_def("typelib.serdes.strload")
-    text = ast.unparse(node)
-    copies = "copy.deepcopy(loaded)" in text and all(k in text for k in ("list", "dict", "set", "tuple"))
-    chk.add(Ob("typelib.serdes.strload", "container-results-are-deep-copied-before-they-are-returned", "ast", [], z3.BoolVal(copies)))
-    callers = []
-    for m in modules(src):
-        for fn in [n for n in ast.walk(src.module(m)) if isinstance(n, ast.FunctionDef)]:
-            for n in ast.walk(fn):
-                if isinstance(n, ast.Call) and ast.unparse(n.func).endswith("_strload") and fn.name != "_strload":
-                    callers.append(f"{m}.{fn.name}")
-    chk.add(Ob("typelib.serdes._strload", "cached-helper-is-only-reached-through-the-copying-entry-point", "ast-scan", [],
-               z3.BoolVal(callers == ["typelib.serdes.strload"]), {"callers": callers}))
+    helpers = {c.func.id for c in ast.walk(node) if isinstance(c, ast.Call) and isinstance(c.func, ast.Name) and c.func.id.startswith("_")}
+    memoised = [h for h in helpers if _is_memoised(src, "typelib.serdes", h)]
+    for h in memoised:
+        I.stubs[f"typelib.serdes.{h}"] = Stub(f"serdes.{h}", lambda I, p, a, k: SV(cached(to_val(a[0]))), None)
+    I.builtin_models[_copy.deepcopy] = lambda I, path, a, k: SV(deep(to_val(a[0])))
+    func = "typelib.serdes.strload"
+    nm = "container-results-are-deep-copied-before-they-are-returned"
+
+    def mk(I, path):
+        x = path.fresh("x")
+        for k in (list, dict, set, tuple, str, bytes, bytearray, memoryview):
+            cls_const(k)
+        return [SV(x)], {}, {"x": x}
+    n = 0
+    for pi, (path, out, obls, writes, cur) in enumerate(I.run_function(func, mk)):
+        hy = path.hyps + class_axioms()
+        if out.kind == "raise":
+            continue
+        if out.kind != "ret":
+            chk.add(Ob(func, nm, f"p{pi}", hy, z3.BoolVal(False), {"outcome": out.kind, "why": str(out.value)[:200]}))
+            continue
+        n += 1
+        r = to_val(out.value)
+        # r is deepcopy(c) for a cache entry c, or r is a cache entry whose class is not a container class
+        ents = [t for t in _subterms(r) if z3.is_app(t) and t.decl().name().startswith("the_cache_entry_for")]
+        goal = z3.BoolVal(False)
+        for c in ents or []:
+            not_container = z3.And(*[cls_of(c) != cls_const(k) for k in (list, dict, set, tuple)])
+            goal = z3.Or(goal, r == deep(c), z3.And(r == c, not_container))
+        chk.add(Ob(func, nm, f"p{pi}", hy, goal if ents else z3.BoolVal(False), {"cache_entries": len(ents)}))
+    if not memoised or n == 0:
+        chk.add(Ob(func, nm, "shape", [], z3.BoolVal(False), {"note": "strload no longer returns through a memoised helper"}))
+    chk.trusted.update(I.assumed_used)
+    # ... and that memoised helper is called from nowhere else in the package
+    for h in memoised or ["_strload"]:
+        callers = []
+        for m in modules(src):
+            for fn in [n_ for n_ in ast.walk(src.module(m)) if isinstance(n_, ast.FunctionDef)]:
+                for n_ in ast.walk(fn):
+                    if isinstance(n_, ast.Call) and ast.unparse(n_.func).split(".")[-1] == h and fn.name != h:
+                        callers.append(f"{m}.{fn.name}")
+        chk.add(Ob("typelib.serdes._strload", "cached-helper-is-only-reached-through-the-copying-entry-point", "ast-scan", [],
+                   z3.BoolVal(callers == ["typelib.serdes.strload"]), {"callers": callers, "helper": h}))
+
+
+def _subterms(t):
+    seen, stack = {}, [t]
+    while stack:
+        x = stack.pop()
+        if x.get_id() in seen:
+            continue
+        seen[x.get_id()] = x
+        stack.extend(x.children())
+    return list(seen.values())
+
+
+def _is_memoised(src, modname, fname):
+    for n_ in src.module(modname).body:
+        if isinstance(n_, ast.FunctionDef) and n_.name == fname:
+            return any("cache" in ast.unparse(d) for d in n_.decorator_list)
+    return False
 
 
 def obligations(chk):
